@@ -2,6 +2,7 @@
 for methods / properties / operators / torch functions, and the spec oracle "tc.m(*a) is td.m(*a) re-wrapped".
 Nothing in this file depends on the Coq model."""
 import inspect
+import json
 import operator
 import pickle
 import shutil
@@ -1006,6 +1007,7 @@ def invoke(case, side):
         obs["post"] = canon(target, {"ids": {}})
         if side == "tc" and not outer and hasattr(res, "__dict__") and _is_tc(res):
             obs["res_shares_nt"] = res.__dict__.get("_non_tensordict") is tc.__dict__.get("_non_tensordict")
+            obs["res_same_td"] = res.__dict__.get("_tensordict") is tc.__dict__.get("_tensordict")
     except Exception as e:  # noqa: BLE001 -- the exception class is the observation
         obs = {"status": "raise", "exc": exc_name(e), "msg": str(e)[:160], "nt_before": obs.get("nt_before")}
         try:
@@ -1231,6 +1233,8 @@ def judge(case, o_tc, o_td, o_td2):
                 if ks is not None and not set(ks) <= set(fields):
                     leaves_structure = True
     if o_tc["status"] == "raise":
+        if o_tc.get("exc") == "FrozenInstanceError" and "frozen" in CLASS_INFO[cname][1] and (ref == ["REF", "SELF"] or case["name"].endswith("_")):
+            return "ok", [], flags + ["frozen-rejects-mutation"]    # frozen=True: in-place operations are refused
         if o_td.get("instance_raises"):
             return "ok", [], flags + ["both-raise"]
         if leaves_structure:
@@ -1296,5 +1300,64 @@ def strip_refs(c):
     return [strip_refs(x) if isinstance(x, list) else x for x in c]
 
 
+# ------------------------------------------------------------------------------------------------ abstraction for the model
+def _ratom(c):
+    if not isinstance(c, list) or not c:
+        return "other"
+    if c == ["REF", "SELF"]:
+        return "self"
+    if c[0] == "REF":
+        return ["td", [], c[1] == "KWout"] if c[1] == "KWout" else "other"
+    if c[0] == "TD" and len(c) == 7:
+        return ["td", sorted(k for k, _ in c[6]), False]
+    if c == ["PY", "None"]:
+        return "none"
+    return "other"
+
+
+def _tatom(c, cls, same_td=None):
+    if not isinstance(c, list) or not c:
+        return "other"
+    if c == ["REF", "SELF"]:
+        return "self"
+    if c == ["REF", "SELFTD"]:
+        return "selftd"
+    if c[0] == "REF":
+        return "out" if c[1] == "KWout" else "other"
+    if c[0] == "TC" and c[1] == cls:
+        ks = sorted(top_keys(c[2]) or [])
+        return ["wrapped", ks, sorted([k, "none" if v == ["PY", "None"] else "val"] for k, v in c[3]), same_td]
+    if c[0] == "TD" and len(c) == 7:
+        return ["bare", sorted(k for k, _ in c[6])]
+    if c == ["PY", "None"]:
+        return "none"
+    return "other"
+
+
 def abstract_pair(case, o_tc, o_td):
-    return None
+    """(what the tensordict returned, what the tensorclass returned) in the vocabulary of Model/C15_TCWrap.v"""
+    if case.get("embed") or case.get("recipe") or case["mode"] not in ("call", "attr", "op"):
+        return None
+    if o_td.get("status") != "ok" or o_td.get("instance_raises"):
+        return None
+    cls = "C15" + case["cls"]
+    ref = o_td["res"]
+    if '["REF", "ARG' in json.dumps(ref):
+        return None      # an argument passed through: its keys are not part of the observation
+    if isinstance(ref, list) and ref and ref[0] in ("tuple", "namedtuple"):
+        elems = ref[1] if ref[0] == "tuple" else [v for _, v in ref[2]]
+        r = ["tuple"] + [_ratom(x) for x in elems]
+    else:
+        r = _ratom(ref)
+    if o_tc.get("status") == "raise":
+        t = ["raise", o_tc.get("exc")]
+    else:
+        res = o_tc["res"]
+        if isinstance(res, list) and res and res[0] == "tuple" and isinstance(res[1], list):
+            t = ["tuple"] + [_tatom(x, cls) for x in res[1]]
+        else:
+            t = _tatom(res, cls, o_tc.get("res_same_td"))
+    post = o_td.get("post")
+    selfkeys = sorted(top_keys(post) or []) if isinstance(post, list) else []
+    nt = [[k, "none" if v == ["PY", "None"] else "val"] for k, v in (o_tc.get("nt_before") or [])]
+    return {"r": r, "t": t, "selfkeys": selfkeys, "nt": nt}
